@@ -274,9 +274,9 @@ fn neighbourhood(inner: Inner, centers: &[Val]) -> Vec<Val> {
     out
 }
 
-pub const ALL_FORMS: [Form; 22] = [
+pub const ALL_FORMS: [Form; 26] = [
     Form::Lit, Form::Under, Form::IntForFloat, Form::Exp, Form::Suffix, Form::Const, Form::NegConst, Form::NegSpConst, Form::NegParen, Form::Paren, Form::Plus1, Form::OnePlus, Form::Minus1, Form::Shl, Form::AsCast, Form::TyExtreme, Form::FnCall, Form::Block, Form::NegPlus, Form::ModPath, Form::Mul2,
-    Form::IfExpr,
+    Form::IfExpr, Form::NotLit, Form::NotConst, Form::NegLitParen, Form::DoubleNeg,
 ];
 
 pub fn c02_cases(tier: Tier) -> Vec<Case> {
@@ -627,6 +627,9 @@ pub fn c08_cases(tier: Tier) -> Vec<Case> {
                     ("wrong-family-validator", "validate(regex = \"a\")".into()),
                     ("with-mixed", "validate(with = ulib::check_int, error = NumErr, greater = 1)".into()),
                     ("with-mixed", "validate(greater = 1, with = ulib::check_int, error = NumErr)".into()),
+                    ("with-mixed", "validate(less_or_equal = 100, error = NumErr, with = ulib::check_int)".into()),
+                    ("with-mixed", "validate(with = ulib::check_int, predicate = ulib::is_even, error = NumErr)".into()),
+                    ("with-mixed", "validate(error = NumErr, greater = 1, with = ulib::check_int)".into()),
                     ("duplicate-validator", "validate(greater = 1, greater = 2)".into()),
                     ("duplicate-validator", "validate(less = 1, less = 1)".into()),
                     ("duplicate-validator", "validate(predicate = ulib::is_even, predicate = ulib::not_13)".into()),
@@ -642,6 +645,12 @@ pub fn c08_cases(tier: Tier) -> Vec<Case> {
                     ("wrong-family-validator", "validate(not_empty)".into()),
                     ("wrong-family-validator", "validate(len_char_min = 3)".into()),
                     ("with-mixed", "validate(with = ulib::check_float, error = NumErr, finite)".into()),
+                    ("with-mixed", "validate(finite, with = ulib::check_float, error = NumErr)".into()),
+                    ("with-mixed", "validate(less = 5.0, error = NumErr, with = ulib::check_float)".into()),
+                    ("with-mixed", "validate(with = ulib::check_float, greater = 1.0, error = NumErr)".into()),
+                    ("bitwise-not-on-float-bound", "validate(greater = !1.0)".into()),
+                    ("bitwise-not-on-float-bound", "validate(less_or_equal = !0)".into()),
+                    ("bitwise-not-on-float-bound", "validate(less = !7)".into()),
                     ("duplicate-validator", "validate(finite, finite)".into()),
                     ("duplicate-validator", "validate(greater = 1.0, finite, greater = 2.0)".into()),
                     ("two-lower-bounds", "validate(greater = 1.0, greater_or_equal = 1.0)".into()),
@@ -674,6 +683,9 @@ pub fn c08_cases(tier: Tier) -> Vec<Case> {
                     ("duplicate-validator", "validate(len_char_max = 3, len_char_max = 4)".into()),
                     ("duplicate-validator", "validate(regex = \"a\", regex = \"b\")".into()),
                     ("with-mixed", "validate(with = ulib::check_str, error = StrErr, not_empty)".into()),
+                    ("with-mixed", "validate(not_empty, with = ulib::check_str, error = StrErr)".into()),
+                    ("with-mixed", "validate(len_char_max = 5, error = StrErr, with = ulib::check_str)".into()),
+                    ("with-mixed", "validate(error = StrErr, regex = \"a\", with = ulib::check_str)".into()),
                     ("contradictory-literal-bounds", "validate(len_char_min = 5, len_char_max = 3)".into()),
                     ("contradictory-literal-bounds", "validate(len_char_max = 0, len_char_min = 1)".into()),
                     ("invalid-regex", "validate(regex = \"(\")".into()),
@@ -690,6 +702,8 @@ pub fn c08_cases(tier: Tier) -> Vec<Case> {
                     ("wrong-family-validator", "validate(not_empty)".into()),
                     ("wrong-family-validator", "validate(finite)".into()),
                     ("with-mixed", "validate(with = ulib::check_vec, error = VecErr, predicate = ulib::vec_short)".into()),
+                    ("with-mixed", "validate(predicate = ulib::vec_short, with = ulib::check_vec, error = VecErr)".into()),
+                    ("with-mixed", "validate(error = VecErr, predicate = ulib::vec_short, with = ulib::check_vec)".into()),
                     ("duplicate-validator", "validate(predicate = ulib::vec_short, predicate = ulib::vec_nonempty)".into()),
                     ("duplicate-sanitizer", "sanitize(with = ulib::sort_dedup, with = ulib::sort_dedup)".into()),
                 ]);
